@@ -46,6 +46,11 @@ impl CodeMapper {
         self.alphabet_size
     }
 
+    #[cfg(feature = "daachorse_verif")]
+    pub fn verif_raw(&self) -> (&[u32], u32) {
+        (&self.table, self.alphabet_size)
+    }
+
     #[inline]
     #[allow(dead_code)]
     pub fn heap_bytes(&self) -> usize {
